@@ -426,8 +426,19 @@ def real_run(ctx, case, sandbox, cwd, out_spelled, out_abs, types, root_dir, lct
         g, s = DSDLCodeGenerator(root), SupportGenerator(root)
         announced = [pathlib.Path(p) for p in list(g.generate_all(is_dryrun=True)) + list(s.generate_all(is_dryrun=True))]
         announced = sorted(os.path.relpath(os.path.abspath(p), sandbox) for p in announced)
-        g.generate_all(is_dryrun=False)
-        s.generate_all(is_dryrun=False)
+        aborted = None
+        try:
+            g.generate_all(is_dryrun=False)
+            s.generate_all(is_dryrun=False)
+        except ValueError:
+            raise
+        except Exception as ex:  # a template that cannot render under this configuration: not C11's subject,
+            aborted = type(ex).__name__  # but whatever was created before the crash must still lie inside
+            ctx.count("real_run_aborted_by_template_error:" + aborted)
+            ctx.extra.setdefault("real_run_template_errors", [])
+            if len(ctx.extra["real_run_template_errors"]) < 5:
+                ctx.extra["real_run_template_errors"].append({"lang": case["lang"], "enable_stropping": case["enable_stropping"],
+                                                              "error": f"{aborted}: {str(ex)[:120]}"})
     finally:
         os.chdir(old)
     new = snapshot(sandbox) - before
@@ -437,7 +448,7 @@ def real_run(ctx, case, sandbox, cwd, out_spelled, out_abs, types, root_dir, lct
         ctx.fail({"kind": "created-outside-outdir"}, "a real run created something outside the output directory",
                  dict(case, outside=outside[:10], outdir=out_rel))
     files = sorted(p for p in new if os.path.isfile(os.path.join(sandbox, p)))
-    if files != announced:
+    if aborted is None and files != announced:
         ctx.fail({"kind": "run-vs-dry-run"}, "the files a real run creates are not the paths the dry run announces",
                  dict(case, created=files[:40], announced=announced[:40]))
     ctx.count("real_runs")
@@ -521,6 +532,8 @@ def run_pathlib_tie(ctx, drv):
         elif op == "rel":
             a = seg(8)
             b = rng.choice([seg(3), a[: rng.randint(0, len(a))]])
+            if b.startswith("//") and not b.startswith("///"):
+                b = b[1:]
             reqs.append(f"path rel {enc(a)} {enc(b)}")
             try:
                 want.append(list(P(a).relative_to(P(b)).parts))
@@ -650,7 +663,7 @@ def run(ctx: common.Ctx):
     import pydsdl
     import time
     timing = ctx.extra.setdefault("timing_s", {})
-    t_mark = [time.time()]
+    t_mark = [ctx.t0]
 
     def lap(name):
         timing[name] = round(timing.get(name, 0) + time.time() - t_mark[0], 2)
@@ -661,8 +674,8 @@ def run(ctx: common.Ctx):
     lap("pathlib_tie")
 
     rng = ctx.rng
-    n_random = 60 if ctx.quick else 900
-    n_collide = 12 if ctx.quick else 150
+    n_random = 60 if ctx.quick else 700
+    n_collide = 12 if ctx.quick else 120
     n_real = 24 if ctx.quick else 250
     universes = []
     corpus = common.VERIF / "corpus" / "C11"
@@ -786,14 +799,52 @@ def run(ctx: common.Ctx):
 
 
 def replay(ctx, path):
-    """Re-run the failing input recorded in a replay file on the real code (the universe is regenerated from the
-    recorded seed/tier, the case is located by its description)."""
+    """Re-run the failing input of a replay file on the real code.  Corpus and exhaustive-stream inputs are rebuilt
+    directly from their description; inputs of the random streams are regenerated by re-running the recorded
+    (seed, tier) without the Lean side."""
     r = json.loads(open(path).read())
-    print(json.dumps({"what": r.get("what"), "key": r.get("key"), "replay": r.get("replay")}, indent=1)[:4000])
-    ctx2 = common.Ctx("C11", r.get("tier", "quick"), r.get("seed", 0))
-    ctx2.prove = lambda *a, **k: {}
-    run(ctx2)
-    hit = [f for f in ctx2.failures if f["key"] == r.get("key")]
-    print(f"re-run with seed={ctx2.seed} tier={ctx2.tier}: {len(hit)} failure(s) with the recorded key")
-    ctx2.cleanup()
-    return 1 if hit else 0
+    rp = r.get("replay") or {}
+    print(json.dumps({"what": r.get("what"), "key": r.get("key"), "replay": rp}, indent=1)[:3000])
+    uname = rp.get("universe", "")
+    probe = common.Ctx("C11", r.get("tier", "quick"), r.get("seed", 0))
+    try:
+        if uname.startswith("corpus:") or uname == "exhaustive":
+            spec = EXH_SPEC if uname == "exhaustive" else json.loads((common.VERIF / "corpus" / "C11" / uname[7:]).read_text())
+            roots = write_corpus_universe(probe.scratch / "dsdl", spec)
+            dirs = [x["dir"] for x in roots]
+            for x in roots:
+                x["lookup"] = [d for d in dirs if d != x["dir"]]
+            root = [x for x in roots if x["name"] == rp["root"]][0]
+            by_name = {tstr(tkey(t)): t for t in read_root(root)}
+            types = [by_name[n] for n in rp["types"]]
+            lctx = make_lctx(rp["lang"], rp.get("ext"), rp.get("stem"), rp.get("enable_stropping"))
+            language = lctx.get_target_language()
+            deps = []
+            for t in types:
+                for d in direct_deps(language, t):
+                    if d not in types and d not in deps:
+                        deps.append(d)
+            work = probe.scratch / "sandbox" / "work"
+            work.mkdir(parents=True)
+            old = os.getcwd()
+            os.chdir(work)
+            try:
+                case = {k: rp.get(k) for k in ("universe", "root", "lang", "ext", "stem", "enable_stropping", "outdir", "types", "refs")}
+                res, built = impl_extract(types, types + deps, root["dir"], rp["outdir"], lctx)
+                if built is not None:
+                    clean = str(pathlib.PurePosixPath(rp["outdir"]))
+                    search(probe, case, types, types + deps, root["dir"], clean, lctx, built, {})
+                    real_run(probe, case, str(probe.scratch / "sandbox"), str(work), rp["outdir"],
+                             os.path.abspath(rp["outdir"] or "."), types, root["dir"], lctx)
+            finally:
+                os.chdir(old)
+        else:
+            probe.prove = lambda *a, **k: {}
+            run(probe)
+        hit = [f for f in probe.failures if f["key"] == r.get("key")]
+        print(f"failures with the recorded key on {common.REPO}: {len(hit)}")
+        for f in hit[:1]:
+            print(json.dumps(f["replay"], indent=1)[:2000])
+        return 1 if hit else 0
+    finally:
+        probe.cleanup()
